@@ -27,10 +27,13 @@ import (
 	"io"
 	"os"
 	"path/filepath"
+	"runtime"
+	"runtime/debug"
 	"runtime/pprof"
 	"sort"
 	"strconv"
 	"strings"
+	"syscall"
 	"time"
 
 	"github.com/ollama/ollama/api"
@@ -41,7 +44,7 @@ import (
 )
 
 const (
-	c16Huge   = uint64(1) << 55     // "practically unlimited" free memory
+	c16Huge   = uint64(1) << 50     // "practically unlimited" free memory (exact in a float64, like every other value used)
 	c16MinBig = uint64(1)<<30 + 7   // a MinimumMemory larger than any graph+layer of the tiny models
 	c16MinSml = uint64(5)           // a tiny MinimumMemory
 	c16OvSml  = uint64(3)           // a tiny OLLAMA_GPU_OVERHEAD
@@ -69,6 +72,8 @@ type c16Group struct { // one unit of work for a worker process
 	Parallel int      `json:"parallel"`
 	ProjFile bool     `json:"projector_file"`
 	Overhead uint64   `json:"overhead"`
+	Idx      int      `json:"group_index,omitempty"`
+	Of       int      `json:"groups,omitempty"`
 }
 
 type c16Case struct {
@@ -458,7 +463,7 @@ func c16SubsetSums(elems []uint64) []c16Sum {
 }
 
 // c16FreeSet: the FreeMemory values one GPU ranges over.
-func c16FreeSet(cp *c16Comp, ov, mn uint64, zs []uint64, sums []c16Sum, k, kCross int, eps []int64) []uint64 {
+func c16FreeSet(cp *c16Comp, ov, mn uint64, zs []uint64, sums []c16Sum, reach []uint64, k, kCross int, eps []int64) []uint64 {
 	set := map[uint64]struct{}{0: {}, c16Huge: {}}
 	if ov > 0 {
 		set[ov] = struct{}{}
@@ -478,16 +483,30 @@ func c16FreeSet(cp *c16Comp, ov, mn uint64, zs []uint64, sums []c16Sum, k, kCros
 	}
 	for _, z := range zs {
 		add(ov+mn+cp.G+cp.L0+z, k)
-		if kCross >= 0 { // thresholds as a buggy estimator that forgot overhead and/or minimum would see them
-			if ov > 0 {
-				add(mn+cp.G+cp.L0+z, kCross)
+		for _, rv := range reach {
+			for _, e := range eps {
+				if v := int64(ov+mn+cp.G+cp.L0+z+rv) + e; v >= 0 {
+					set[uint64(v)] = struct{}{}
+				}
 			}
-			if mn > 0 {
-				add(ov+cp.G+cp.L0+z, kCross)
+		}
+		// thresholds as an estimator that forgot overhead and/or minimum would see them
+		cross := func(base uint64) {
+			if kCross > 0 {
+				add(base, kCross)
+			} else if kCross == 0 { // the admission threshold only
+				set[base+cp.L0] = struct{}{}
+				set[base+cp.L0+1] = struct{}{}
 			}
-			if ov > 0 && mn > 0 {
-				add(cp.G+cp.L0+z, kCross)
-			}
+		}
+		if ov > 0 {
+			cross(mn + cp.G + cp.L0 + z)
+		}
+		if mn > 0 {
+			cross(ov + cp.G + cp.L0 + z)
+		}
+		if ov > 0 && mn > 0 {
+			cross(cp.G + cp.L0 + z)
 		}
 	}
 	out := make([]uint64, 0, len(set))
@@ -498,21 +517,101 @@ func c16FreeSet(cp *c16Comp, ov, mn uint64, zs []uint64, sums []c16Sum, k, kCros
 	return out
 }
 
+// c16Reach computes, for every GPU position of an n-GPU list, every value s such
+// that the estimator can compare that GPU's FreeMemory with
+// (overhead + projector + graph + minimum + layer buffer) + s: it replays the
+// round-robin placement for every set of admitted GPUs and every "drop-out
+// history" (GPU p accepts its first c[p] offers and is dropped at the next one)
+// and records the bytes already placed plus the layer on offer at each decision,
+// including the output layer's offers at the end. Only used to choose inputs.
+func c16Reach(n int, eff []uint64, l0, out uint64) [][]uint64 {
+	nb := len(eff)
+	sets := make([]map[uint64]struct{}, n)
+	for p := range sets {
+		sets[p] = map[uint64]struct{}{0: {}, l0: {}} // below admission; admission (= buffer + one more layer)
+	}
+	never := nb + 1
+	alloc := make([]uint64, n)
+	acc := make([]int, n)
+	c := make([]int, n)
+	for mask := 1; mask < 1<<n; mask++ {
+		var adm []int
+		for p := 0; p < n; p++ {
+			if mask&(1<<p) != 0 {
+				adm = append(adm, p)
+			}
+		}
+		for i := range c {
+			c[i] = 0
+		}
+		for {
+			list := append([]int{}, adm...)
+			for p := range alloc {
+				alloc[p], acc[p] = 0, 0
+			}
+			placed := 0
+			for i := 0; i < nb; i++ {
+				for j := len(list); j > 0; j-- {
+					g := list[i%j]
+					sets[g][alloc[g]+eff[i]] = struct{}{}
+					if acc[g] < c[g] {
+						alloc[g] += eff[i]
+						acc[g]++
+						placed++
+						break
+					}
+					list = append(list[:i%j], list[i%j+1:]...)
+				}
+			}
+			if out > 0 {
+				for j := len(list); j > 0; j-- {
+					g := list[placed%j]
+					sets[g][alloc[g]+out] = struct{}{}
+				}
+			}
+			// next history over the admitted GPUs
+			k := len(adm) - 1
+			for ; k >= 0; k-- {
+				c[adm[k]]++
+				if c[adm[k]] <= never {
+					break
+				}
+				c[adm[k]] = 0
+			}
+			if k < 0 {
+				break
+			}
+		}
+	}
+	res := make([][]uint64, n)
+	for p, m := range sets {
+		for v := range m {
+			res[p] = append(res[p], v)
+		}
+		sort.Slice(res[p], func(i, j int) bool { return res[p][i] < res[p][j] })
+	}
+	return res
+}
+
 // ---- enumeration plan ----------------------------------------------------------------
 
 type c16Level struct {
-	N       int      `json:"gpus"`
-	Opts    string   `json:"opts"`     // all | lite  : which (ctx,batch,parallel) combinations run this level
-	Shapes  string   `json:"shapes"`   // all | core  : which model shapes run this level
-	Proj    string   `json:"proj"`     // all | nofile
-	K       int      `json:"k"`        // thresholds with up to K layers (c16AllK = all subsets)
-	KCross  int      `json:"k_cross"`  // same for thresholds computed without overhead / minimum; -1 none
-	Eps     []int64  `json:"eps"`
-	Libs    []string `json:"libs"`
-	NumGPU  string   `json:"num_gpu"`  // all | core
-	MinPats []string `json:"min_pats"` // zero | big | small | alt
-	Overs   string   `json:"overheads"` // all | core
-	Vector  string   `json:"vector"`   // product | pattern
+	N         int      `json:"gpus"`
+	Opts      string   `json:"opts"`       // all | lite | one : which (ctx,batch,parallel) combinations run this level
+	MaxBlocks int      `json:"max_blocks"` // model shapes with more blocks skip this level
+	Profiles  []string `json:"profiles"`   // nil = all
+	Outputs   []string `json:"outputs"`    // nil = all
+	Vision    string   `json:"vision"`     // all | none | some (vision tower only with uniform profile and small/none output)
+	Proj      string   `json:"proj_file"`  // all | nofile
+	Sums      string   `json:"sums"`       // subsets: thresholds with any <=K layers/output; reach: all thresholds reachable by round-robin placement with drop-outs
+	K         int      `json:"k"`
+	KCross    int      `json:"k_cross"` // thresholds with <=KCross layers computed without overhead and/or minimum; -1 none
+	Eps       []int64  `json:"eps"`
+	Libs      []string `json:"libs"`
+	NumGPU    string   `json:"num_gpu"`   // all | core
+	MinPats   []string `json:"min_pats"`  // zero | big | small | alt
+	Overs     []uint64 `json:"overheads"` // nil = all
+	Vector    string   `json:"vector"`    // product | pattern
 }
 
 type c16Plan struct {
@@ -539,13 +638,18 @@ func c16MakePlan(thorough bool) c16Plan {
 		Parallel: []int{1, 4},
 	}
 	cm := []string{"cuda", "metal"}
+	cmc := []string{"cuda", "metal", "cpu"}
+	zb := []string{"zero", "big"}
+	ug := []string{"uniform", "growing"}
+	ns := []string{"none", "small"}
 	if !thorough {
 		p.Overheads = []uint64{0, c16OvMid}
 		p.Levels = []c16Level{
-			{N: 1, Opts: "all", Shapes: "all", Proj: "all", K: c16AllK, KCross: c16AllK, Eps: c16Eps3, Libs: []string{"cuda", "metal", "cpu"}, NumGPU: "all", MinPats: []string{"zero", "big"}, Overs: "all", Vector: "product"},
-			{N: 2, Opts: "lite", Shapes: "all", Proj: "all", K: 2, KCross: 1, Eps: c16Eps3, Libs: cm, NumGPU: "all", MinPats: []string{"zero", "big"}, Overs: "all", Vector: "product"},
-			{N: 3, Opts: "lite", Shapes: "core", Proj: "nofile", K: 1, KCross: -1, Eps: c16Eps3, Libs: cm, NumGPU: "core", MinPats: []string{"zero"}, Overs: "all", Vector: "product"},
-			{N: 4, Opts: "lite", Shapes: "core", Proj: "nofile", K: 1, KCross: -1, Eps: []int64{0, 1}, Libs: []string{"cuda"}, NumGPU: "core", MinPats: []string{"zero"}, Overs: "all", Vector: "product"},
+			{N: 1, Opts: "all", MaxBlocks: 5, Vision: "some", Proj: "all", Sums: "subsets", K: c16AllK, KCross: 1, Eps: c16Eps3, Libs: cmc, NumGPU: "all", MinPats: zb, Vector: "product"},
+			{N: 2, Opts: "one", MaxBlocks: 3, Vision: "some", Proj: "all", Sums: "reach", KCross: 0, Eps: c16Eps3, Libs: cm, NumGPU: "all", MinPats: zb, Vector: "product"},
+			{N: 2, Opts: "one", MaxBlocks: 5, Vision: "none", Proj: "nofile", Sums: "reach", KCross: -1, Eps: c16Eps3, Libs: cm, NumGPU: "core", MinPats: []string{"zero"}, Vector: "product"},
+			{N: 3, Opts: "one", MaxBlocks: 3, Profiles: ug, Outputs: ns, Vision: "none", Proj: "nofile", Sums: "reach", KCross: -1, Eps: c16Eps3, Libs: cm, NumGPU: "core", MinPats: []string{"zero"}, Vector: "product"},
+			{N: 4, Opts: "one", MaxBlocks: 3, Profiles: []string{"uniform"}, Outputs: []string{"small"}, Vision: "none", Proj: "nofile", Sums: "subsets", K: 1, KCross: -1, Eps: c16Eps3, Libs: []string{"cuda"}, NumGPU: "core", MinPats: []string{"zero"}, Vector: "product"},
 		}
 		return p
 	}
@@ -559,13 +663,16 @@ func c16MakePlan(thorough bool) c16Plan {
 		{Arch: "gemma3", Blocks: 7, Profile: "uniform", Output: "none", Vision: true},
 	}
 	all4 := []string{"zero", "big", "small", "alt"}
+	core := []uint64{0, c16OvMid}
 	p.Levels = []c16Level{
-		{N: 1, Opts: "all", Shapes: "all", Proj: "all", K: c16AllK, KCross: c16AllK, Eps: c16Eps3, Libs: []string{"cuda", "metal", "cpu"}, NumGPU: "all", MinPats: all4, Overs: "all", Vector: "product"},
-		{N: 2, Opts: "all", Shapes: "all", Proj: "all", K: 3, KCross: 1, Eps: c16Eps3, Libs: []string{"cuda", "metal", "cpu"}, NumGPU: "all", MinPats: all4, Overs: "all", Vector: "product"},
-		{N: 3, Opts: "lite", Shapes: "all", Proj: "all", K: 2, KCross: -1, Eps: c16Eps3, Libs: cm, NumGPU: "all", MinPats: []string{"zero", "big", "alt"}, Overs: "core", Vector: "product"},
-		{N: 4, Opts: "lite", Shapes: "core", Proj: "nofile", K: 1, KCross: -1, Eps: c16Eps3, Libs: cm, NumGPU: "core", MinPats: []string{"zero", "alt"}, Overs: "core", Vector: "product"},
-		{N: 6, Opts: "lite", Shapes: "core", Proj: "nofile", K: 2, KCross: -1, Eps: c16Eps3, Libs: cm, NumGPU: "core", MinPats: []string{"zero", "big"}, Overs: "core", Vector: "pattern"},
-		{N: 8, Opts: "lite", Shapes: "core", Proj: "nofile", K: 2, KCross: -1, Eps: c16Eps3, Libs: cm, NumGPU: "core", MinPats: []string{"zero", "big"}, Overs: "core", Vector: "pattern"},
+		{N: 1, Opts: "all", MaxBlocks: 8, Vision: "all", Proj: "all", Sums: "subsets", K: c16AllK, KCross: 1, Eps: c16Eps3, Libs: cmc, NumGPU: "all", MinPats: all4, Vector: "product"},
+		{N: 2, Opts: "lite", MaxBlocks: 8, Vision: "all", Proj: "all", Sums: "reach", KCross: 0, Eps: c16Eps3, Libs: cm, NumGPU: "all", MinPats: []string{"zero", "big", "alt"}, Overs: core, Vector: "product"},
+		{N: 2, Opts: "all", MaxBlocks: 3, Vision: "some", Proj: "all", Sums: "reach", KCross: 0, Eps: c16Eps3, Libs: cmc, NumGPU: "core", MinPats: []string{"small"}, Overs: []uint64{c16OvSml}, Vector: "product"},
+		{N: 3, Opts: "one", MaxBlocks: 5, Vision: "none", Proj: "nofile", Sums: "reach", KCross: -1, Eps: c16Eps3, Libs: cm, NumGPU: "core", MinPats: []string{"zero"}, Overs: core, Vector: "product"},
+		{N: 3, Opts: "one", MaxBlocks: 3, Vision: "some", Proj: "all", Sums: "reach", KCross: -1, Eps: c16Eps3, Libs: cm, NumGPU: "core", MinPats: []string{"alt"}, Overs: []uint64{c16OvMid}, Vector: "product"},
+		{N: 4, Opts: "one", MaxBlocks: 3, Profiles: ug, Outputs: []string{"small"}, Vision: "none", Proj: "nofile", Sums: "reach", KCross: -1, Eps: c16Eps3, Libs: cm, NumGPU: "core", MinPats: []string{"zero"}, Overs: []uint64{c16OvMid}, Vector: "product"},
+		{N: 6, Opts: "one", MaxBlocks: 8, Profiles: ug, Vision: "none", Proj: "nofile", Sums: "subsets", K: 2, KCross: -1, Eps: c16Eps3, Libs: cm, NumGPU: "core", MinPats: zb, Overs: core, Vector: "pattern"},
+		{N: 8, Opts: "one", MaxBlocks: 8, Profiles: ug, Vision: "none", Proj: "nofile", Sums: "subsets", K: 2, KCross: -1, Eps: c16Eps3, Libs: cm, NumGPU: "core", MinPats: zb, Overs: core, Vector: "pattern"},
 	}
 	return p
 }
@@ -587,20 +694,26 @@ func (p *c16Plan) shapes() []c16Shape {
 	return append(out, p.Extra...)
 }
 
-func c16CoreShape(s c16Shape) bool {
-	if s.Arch != "llama" {
-		return s.Blocks >= 7
+func c16In(xs []string, x string) bool {
+	if xs == nil {
+		return true
 	}
-	switch s.Profile {
-	case "uniform", "growing":
-	default:
-		return false
+	for _, y := range xs {
+		if y == x {
+			return true
+		}
 	}
-	return s.Blocks >= 2 && (s.Output == "small" || s.Output == "none" || s.Output == "big") && !(s.Vision && s.Output == "big")
+	return false
 }
 
-func c16LiteOpts(g *c16Group) bool {
-	return (g.Ctx == 4 && g.Batch == 512 && g.Parallel == 1) || (g.Ctx == 2048 && g.Batch == 1 && g.Parallel == 4)
+func c16OptsClass(g *c16Group) int { // 2: the single representative, 1: lite, 0: the rest
+	if g.Ctx == 4 && g.Batch == 512 && g.Parallel == 1 {
+		return 2
+	}
+	if g.Ctx == 2048 && g.Batch == 1 && g.Parallel == 4 {
+		return 1
+	}
+	return 0
 }
 
 func (p *c16Plan) groups() []c16Group {
@@ -614,7 +727,13 @@ func (p *c16Plan) groups() []c16Group {
 							continue // an explicit projector file overrides the in-model vision tower
 						}
 						for _, ov := range p.Overheads {
-							out = append(out, c16Group{Shape: s, Ctx: ctx, Batch: batch, Parallel: par, ProjFile: pf, Overhead: ov})
+							g := c16Group{Shape: s, Ctx: ctx, Batch: batch, Parallel: par, ProjFile: pf, Overhead: ov}
+							for li := range p.Levels {
+								if p.Levels[li].applies(&g) {
+									out = append(out, g)
+									break
+								}
+							}
 						}
 					}
 				}
@@ -665,17 +784,35 @@ func c16Mins(pat string, n int) []uint64 {
 }
 
 func (l *c16Level) applies(g *c16Group) bool {
-	if l.Opts == "lite" && !c16LiteOpts(g) {
+	oc := c16OptsClass(g)
+	if (l.Opts == "lite" && oc < 1) || (l.Opts == "one" && oc < 2) {
 		return false
 	}
-	if l.Shapes == "core" && !c16CoreShape(g.Shape) {
+	s := &g.Shape
+	if s.Blocks > l.MaxBlocks || !c16In(l.Profiles, s.Profile) || !c16In(l.Outputs, s.Output) {
 		return false
+	}
+	if s.Vision {
+		switch l.Vision {
+		case "none":
+			return false
+		case "some":
+			if s.Profile != "uniform" || (s.Output != "small" && s.Output != "none") {
+				return false
+			}
+		}
 	}
 	if l.Proj == "nofile" && g.ProjFile {
 		return false
 	}
-	if l.Overs == "core" && g.Overhead != 0 && g.Overhead != c16OvMid {
-		return false
+	if l.Overs != nil {
+		ok := false
+		for _, o := range l.Overs {
+			ok = ok || o == g.Overhead
+		}
+		if !ok {
+			return false
+		}
 	}
 	return true
 }
@@ -726,9 +863,25 @@ func c16Projectors(g *c16Group) []string {
 type c16Stats struct {
 	evals, nontrivial, fit, partial, full, tight, dropped, capped int64
 	byN                                                          [9]int64
+	byLevel                                                      [16]int64
+}
+
+func c16CPUms() int64 {
+	var ru syscall.Rusage
+	if syscall.Getrusage(syscall.RUSAGE_SELF, &ru) != nil {
+		return 0
+	}
+	return (ru.Utime.Sec+ru.Stime.Sec)*1000 + int64(ru.Utime.Usec+ru.Stime.Usec)/1000
 }
 
 func c16Group1(g *c16Group, plan *c16Plan, sub *evid.Run, dry bool) {
+	if sub.Expired() {
+		sub.NotExhaustive(fmt.Sprintf("time budget reached: group %+v not run", *g))
+		sub.Add("groups_skipped", 1)
+		return
+	}
+	cpu0 := c16CPUms()
+	defer func() { sub.Add("worker_cpu_ms", c16CPUms()-cpu0) }()
 	c16OwnEnv(g.Overhead)
 	f := c16Model(g.Shape)
 	projectors := c16Projectors(g)
@@ -739,9 +892,20 @@ func c16Group1(g *c16Group, plan *c16Plan, sub *evid.Run, dry bool) {
 	b1 := make([]discover.GpuInfo, 0, 8)
 	b2 := make([]discover.GpuInfo, 0, 8)
 
+	curLevel := 0
+	// samples: the first case and the first non-trivial case with the most GPUs, of about a dozen groups spread over the whole list
+	sampling := g.Of > 0 && g.Idx%max(1, g.Of/12) == 0
+	sampled := false
+	maxN := 0
+	for li := range plan.Levels {
+		if plan.Levels[li].applies(g) {
+			maxN = max(maxN, plan.Levels[li].N)
+		}
+	}
 	one := func(lib string, numGPU int, free, mins []uint64) {
 		st.evals++
 		st.byN[len(free)]++
+		st.byLevel[curLevel]++
 		if dry {
 			return
 		}
@@ -784,12 +948,11 @@ func c16Group1(g *c16Group, plan *c16Plan, sub *evid.Run, dry bool) {
 			h ^= 0x1000000
 		}
 		sub.DistinctH("outcome", h)
-		if sub.WantSample() {
+		if sampling && (st.evals == 1 || (!sampled && e.Layers > 0 && len(free) == maxN && free[0] != c16Huge)) {
+			sampled = sampled || e.Layers > 0
 			c := c16Case{c16Group: *g, Library: lib, NumGPU: numGPU, Free: append([]uint64{}, free...), Min: append([]uint64{}, mins...)}
 			sub.Sample(map[string]any{"case": c, "layers": e.Layers, "split": e.TensorSplit, "gpu_sizes": append([]uint64{}, e.GPUSizes...),
 				"vram": e.VRAMSize, "total": e.TotalSize, "fit": res.Fit})
-		} else {
-			sub.Sample(nil)
 		}
 		if len(viols) == 0 {
 			return
@@ -814,6 +977,7 @@ func c16Group1(g *c16Group, plan *c16Plan, sub *evid.Run, dry bool) {
 		if !lv.applies(g) {
 			continue
 		}
+		curLevel = li
 		n := lv.N
 		for _, lib := range lv.Libs {
 			cp := c16Components(f, g, projectors, base, lib, n)
@@ -823,8 +987,13 @@ func c16Group1(g *c16Group, plan *c16Plan, sub *evid.Run, dry bool) {
 			}
 			sums := c16SubsetSums(elems)
 			k, kc := lv.K, lv.KCross
+			var reach [][]uint64
+			if lv.Sums == "reach" {
+				reach = c16Reach(n, cp.Eff, cp.L0, cp.Out)
+				k = -1
+			}
 			if lib == "cpu" { // the estimate is empty for cpu whatever the numbers; keep a thin slice
-				k, kc = 1, -1
+				k, kc, reach = 1, -1, nil
 			}
 			for _, mp := range lv.MinPats {
 				if mp == "alt" && n == 1 {
@@ -841,7 +1010,11 @@ func c16Group1(g *c16Group, plan *c16Plan, sub *evid.Run, dry bool) {
 							zs = []uint64{0, cp.Gzo}
 						}
 					}
-					sets[p] = c16FreeSet(&cp, g.Overhead, mins[p], zs, sums, k, kc, lv.Eps)
+					var rp []uint64
+					if reach != nil {
+						rp = reach[p]
+					}
+					sets[p] = c16FreeSet(&cp, g.Overhead, mins[p], zs, sums, rp, k, kc, lv.Eps)
 				}
 				for _, ng := range c16NumGPUs(lv.NumGPU, blocks) {
 					if sub.Expired() {
@@ -874,6 +1047,11 @@ func c16Flush(sub *evid.Run, st *c16Stats) {
 	for n, c := range st.byN {
 		if c > 0 {
 			sub.Add(fmt.Sprintf("cases_with_%d_gpus", n), c)
+		}
+	}
+	for l, c := range st.byLevel {
+		if c > 0 {
+			sub.Add(fmt.Sprintf("cases_in_level_%d", l), c)
 		}
 	}
 }
@@ -964,6 +1142,11 @@ func ZZVerifC16() {
 	}
 
 	dry := os.Getenv("VERIF_C16_DRY") != ""
+	if evid.IsWorker() {
+		// one worker process per core; the estimator allocates a lot of short-lived garbage
+		runtime.GOMAXPROCS(2)
+		debug.SetGCPercent(2000)
+	}
 	if pf := os.Getenv("VERIF_C16_PROF"); pf != "" && evid.IsWorker() && os.Getenv("VERIF_WORKER_INDEX") == "0" {
 		fh, _ := os.Create(pf)
 		pprof.StartCPUProfile(fh)
@@ -995,6 +1178,7 @@ func ZZVerifC16() {
 	groups := plan.groups()
 	items := make([]string, len(groups))
 	for i := range groups {
+		groups[i].Idx, groups[i].Of = i, len(groups)
 		b, _ := json.Marshal(&groups[i])
 		items[i] = string(b)
 	}
@@ -1003,7 +1187,7 @@ func ZZVerifC16() {
 		"(num_ctx, num_batch, parallel) x projector file x OLLAMA_GPU_OVERHEAD x library x GPU count x MinimumMemory pattern x num_gpu x per-GPU FreeMemory. " +
 		"FreeMemory of each GPU ranges over the estimator's own decision boundaries, obtained from a probe run of EstimateGPULayers with unlimited memory " +
 		"(graph sizes, projector and output cost) and the per-block sizes: overhead + [projector] + max(graph) + minimum + layer buffer + (sum of any <=K blocks/output) + eps, " +
-		"plus the same thresholds computed without overhead and/or minimum (k_cross), plus 0, exactly-the-overhead and 2^55. " +
+		"plus the same thresholds computed without overhead and/or minimum (k_cross), plus 0, exactly-the-overhead and 2^50. " +
 		"Each case runs the real EstimateGPULayers and PredictServerFit once and the five clauses are compared with the inputs. " +
 		"All value lists are de-duplicated, so the enumerated tuples are pairwise distinct inputs; evaluations counts them and distinct_nontrivial counts " +
 		"those in which the estimator placed at least one layer on a GPU (Layers>0: per-GPU bound, split sum and total>=vram are then non-vacuous). " +
@@ -1041,8 +1225,8 @@ func ZZVerifC16() {
 	}
 	if dry {
 		fmt.Printf("dry run: %d groups, %d cases\n", len(groups), r.Count("evaluations"))
-		for n := 1; n <= 8; n++ {
-			fmt.Printf("  gpus=%d: %d\n", n, r.Count(fmt.Sprintf("cases_with_%d_gpus", n)))
+		for l := range plan.Levels {
+			fmt.Printf("  level %d (gpus=%d): %d\n", l, plan.Levels[l].N, r.Count(fmt.Sprintf("cases_in_level_%d", l)))
 		}
 		os.Exit(0)
 	}
